@@ -202,6 +202,8 @@ def readSectors : Nat → List Nat → Option (List Sector × List Nat)
   | n + 1, bytes =>
     match bytes with
     | c :: h :: i :: sh :: fl :: crc :: r =>
+      -- "sector size code is out of range": `Err(IllegalValue)`
+      if sh > 6 then none else
       if fl &&& NO_DATA_MASK = 0 then
         match r with
         | l0 :: l1 :: r2 =>
@@ -218,12 +220,13 @@ def readSectors : Nat → List Nat → Option (List Sector × List Nat)
         | none => none
     | _ => none
 
-/-- the track loop `while expanded[ptr]!=0xff` (td0.rs:810-854); `none` = `Err` or index panic -/
+/-- the track loop `while ptr<expanded.len() && expanded[ptr]!=0xff` (td0.rs); `none` = `Err`; running out of
+bytes exactly at a track boundary ends the loop like the end mark does -/
 def readTracks : Nat → List Nat → Option (List Track)
   | 0, _ => none
   | fuel + 1, bytes =>
     match bytes with
-    | [] => none
+    | [] => some []
     | b :: _ =>
       if b = 0xFF then some [] else
       match bytes with
@@ -257,11 +260,13 @@ def fromBytesNormal (bytes : List Nat) : Option Image :=
       let raw := r3.take len
       if [c0, c1] ≠ le16 (crc16 0 ([l0, l1] ++ stamp ++ raw)) then none else
       match readTracks bytes.length (r3.drop len) with
+      | some [] => none  -- "TD0 has no tracks": `Err(UnexpectedSize)`
       | some ts => some { hdr := hdr, hcrc := hcrc, comment := some { crc := [c0, c1], len := [l0, l1], stamp := stamp, text := decodeText raw }, tracks := ts }
       | none => none
     | _ => none
   else
     match readTracks bytes.length r with
+    | some [] => none  -- "TD0 has no tracks"
     | some ts => some { hdr := hdr, hcrc := hcrc, comment := none, tracks := ts }
     | none => none
 
